@@ -303,6 +303,8 @@ PROPS["C07"] = {
     "jobs": [
         {"name": "codec-w8", "world": "W8", "src": "props/C07_codec.c", "share": 0.7},
         {"name": "codec-w64", "world": "W64", "src": "props/C07_codec.c"},
+        {"name": "bin-codec-w8", "world": "W8", "src": "props/C16_fb.c", "args": ["--only", "codec"], "share": 0.5},
+        {"name": "bin-codec-w64", "world": "W64", "src": "props/C16_fb.c", "args": ["--only", "codec"]},
         {"name": "fam-cod-w64", "world": "W64", "src": "props/C04_fam.c", "args": ["--only", "c07-"]},
         {"name": "fam-cod-w64-315", "world": "W64-315", "src": "props/C04_fam.c", "tiers": ("thorough",), "args": ["--only", "c07-"]},
         {"name": "fam-cod-w64-330", "world": "W64-330", "src": "props/C04_fam.c", "tiers": ("thorough",), "args": ["--only", "c07-"]},
@@ -365,6 +367,12 @@ PROPS["C16"] = {
     "jobs": [
         {"name": "fb-w8", "world": "W8", "src": "props/C16_fb.c", "share": 0.7, "share_thorough": 0.55},
         {"name": "fb-w64", "world": "W64", "src": "props/C16_fb.c", "share_thorough": 0.2},
+        {"name": "fb-w64-sqrt", "world": "W64", "src": "props/C16_fb.c", "env": {"VF_FB_POLY": "sqrt"}, "share": 0.1},
+        {"name": "fb-w8-p953", "world": "W8", "src": "props/C16_fb.c", "env": {"VF_FB_POLY": "p:9,5,3"}, "share": 0.2, "share_thorough": 0.1},
+        {"name": "fb-w8-p532", "world": "W8", "src": "props/C16_fb.c", "env": {"VF_FB_POLY": "p:5,3,2"}, "tiers": ("thorough",), "share": 0.1},
+        {"name": "fb-w8-p871", "world": "W8", "src": "props/C16_fb.c", "env": {"VF_FB_POLY": "p:8,7,1"}, "tiers": ("thorough",), "share": 0.1},
+        {"name": "fb-w8-t6", "world": "W8", "src": "props/C16_fb.c", "env": {"VF_FB_POLY": "t:6"}, "tiers": ("thorough",), "share": 0.1},
+        {"name": "fb-w8-t5", "world": "W8", "src": "props/C16_fb.c", "env": {"VF_FB_POLY": "t:5"}, "tiers": ("thorough",), "share": 0.1},
         {"name": "fb-w64-163", "world": "W64-fb163", "src": "props/C16_fb.c", "tiers": ("thorough",), "share": 0.1},
         {"name": "fb-w64-233", "world": "W64-fb233", "src": "props/C16_fb.c", "tiers": ("thorough",), "share": 0.1},
     ],
